@@ -44,6 +44,42 @@ class Livelock(BaseException):
     """Raised by a seam when the per-run cap on seam calls is exceeded."""
 
 
+class SpinTimeout(Livelock):
+    """The program under test has burnt SPIN_CPU_S seconds of CPU time without reaching any simulated wait: it spins
+    outside every seam (e.g. an event loop that has nothing left to watch and no alarm polls in a tight loop).  Step and
+    seam caps cannot see that, a wall-clock watchdog would depend on the machine's load; the process's own CPU time does
+    not.  Raised from a SIGVTALRM handler, so it surfaces inside the spinning code like a seam's Livelock does."""
+
+
+SPIN_CPU_S = 8.0
+
+
+def _spin_handler(signum, frame):
+    raise SpinTimeout(f"no simulated wait for {SPIN_CPU_S:.0f} s of CPU time")
+
+
+def arm_spin_timer() -> None:
+    """(Re)start the CPU-time budget; called when a scenario starts and at every simulated wait."""
+    import signal  # noqa: PLC0415
+
+    signal.setitimer(signal.ITIMER_VIRTUAL, SPIN_CPU_S, 2.0)
+
+
+def install_spin_timer():
+    import signal  # noqa: PLC0415
+
+    old = signal.signal(signal.SIGVTALRM, _spin_handler)
+    arm_spin_timer()
+    return old
+
+
+def remove_spin_timer(old) -> None:
+    import signal  # noqa: PLC0415
+
+    signal.setitimer(signal.ITIMER_VIRTUAL, 0)
+    signal.signal(signal.SIGVTALRM, old if old is not None else signal.SIG_DFL)
+
+
 class Violation:
     __slots__ = ("clause", "message", "prop", "signature")
 
@@ -148,6 +184,8 @@ def innermost_urwid_frame(exc: BaseException) -> tuple[str, str] | None:
 def raised_in_harness(exc: BaseException) -> bool:
     """True when the exception originates in /verif code and never passed through urwid frames
     below it (i.e. it is a bug in the machinery, not behaviour of the system under test)."""
+    if getattr(exc, "verif_application_side", False):
+        return False  # raised on purpose by a harness object that plays the application (a custom list walker)
     fn, _, _ = innermost_file(exc)
     if not fn.startswith(VERIF_DIR + os.sep):
         return False
